@@ -151,6 +151,26 @@ var bodyFiles = map[string]*facts.BodyFile{
 				}},
 		},
 	},
+	// C03: driver/netconf/message.go
+	"BodiesRequest.lean": {
+		Namespace: "Scrapli.Gen.Bodies.Request",
+		Fns: []*facts.FnSpec{
+			{Dir: "driver/netconf", Recv: "message", Name: "serialize", Lean: "serialize",
+				Doc: "`body` = the result of `xml.Marshal(m)` (taken to succeed), `selfCloseF` = `ForceSelfClosingTags`; " +
+					"state: the two fields of the returned `*serializedInput` (the pointer itself is `()`).",
+				Binders: "(body : Bytes) (selfCloseF : Bytes → Bytes)", BinderArgs: "body selfCloseF",
+				Results: []string{"unit", "error"},
+				Vals:    map[string]facts.Val{"&serializedInput{}": {Lean: "()", Ty: "unit"}},
+				Funcs: map[string]facts.LibFn{
+					"xml.Marshal":          {AnyArgs: true, Ret: []string{"bytes", "error"}, Tmpl: "(body, (none : Go.Error))"},
+					"ForceSelfClosingTags": {Args: []string{"bytes"}, Ret: []string{"bytes"}, Tmpl: "(selfCloseF %0)"},
+				},
+				State: []facts.StateVar{
+					{Key: "serialized.rawXML", Lean: "rawXML", Ty: "bytes"},
+					{Key: "serialized.framedXML", Lean: "framedXML", Ty: "bytes"},
+				}},
+		},
+	},
 	// C15: transport/telnet.go
 	"BodiesTelnet.lean": {
 		Imports:   []string{"ScrapliModel.Telnet"},
